@@ -91,15 +91,23 @@ RuleTest(rule, judged, src, nested) ==
 (***************************************************************************)
 (* MECHANISM of the failure reasons (FilteredDataLike.get_failure_by_index)*)
 (* one reason per truth-table row that is not "and"/"or" and has a flag    *)
-(* set for the item: leaf rows carry (ppe | ce | cf), xor rows carry       *)
-(* cf = not result.                                                        *)
+(* set for the item: leaf rows carry (ppe | ce | cf), combination rows     *)
+(* carry the disjunction of their operands' ppe / ce and cf = not result.  *)
 (***************************************************************************)
-RECURSIVE ReasonCount(_, _, _)
-ReasonCount(c, k, v) ==
-  CASE c.t = "null" -> 0
-    [] c.t = "leaf" -> IF FlagsResult(LeafFlags(c, IF c.datum = "value" THEN v ELSE k, TRUE)) THEN 0 ELSE 1
-    [] c.t = "xor" -> ReasonCount(c.l, k, v) + ReasonCount(c.r, k, v) + (IF EvalTree(c, k, v) = "T" THEN 0 ELSE 1)
-    [] OTHER -> ReasonCount(c.l, k, v) + ReasonCount(c.r, k, v)
+\* per sub-tree: the flags of its last truth-table row (pre-processor error / callable error are the DISJUNCTION of the
+\* operands' flags, so an xor row is flagged - and reported - when an operand errored even if the xor itself holds;
+\* cf = not result) and the number of reported rows (leaf and xor rows with a flag set)
+RECURSIVE RowFlags(_, _, _)
+RowFlags(c, k, v) ==
+  CASE c.t = "null" -> [ppe |-> FALSE, ce |-> FALSE, res |-> TRUE, n |-> 0]
+    [] c.t = "leaf" -> LET f == LeafFlags(c, IF c.datum = "value" THEN v ELSE k, TRUE) IN
+                       [ppe |-> f.ppe, ce |-> f.ce, res |-> FlagsResult(f), n |-> IF f.ppe \/ f.ce \/ f.cf THEN 1 ELSE 0]
+    [] OTHER -> LET a == RowFlags(c.l, k, v)  b == RowFlags(c.r, k, v)
+                    res == CASE c.t = "and" -> a.res /\ b.res [] c.t = "or" -> a.res \/ b.res [] OTHER -> a.res # b.res
+                    ppe == a.ppe \/ b.ppe  ce == a.ce \/ b.ce
+                IN [ppe |-> ppe, ce |-> ce, res |-> res,
+                    n |-> a.n + b.n + (IF c.t = "xor" /\ (ppe \/ ce \/ ~res) THEN 1 ELSE 0)]
+ReasonCount(c, k, v) == RowFlags(c, k, v).n
 
 (***************************************************************************)
 (* MECHANISM of the (value, path) wrapper: the Data wrapper holds pairs    *)
